@@ -1,5 +1,5 @@
 \* spec mutation "static": TLC must violate Inv_C07_ConsolidatableJustified
-CONSTANTS MaxNow = 24  MaxLen = 12  Dedupe = 10  WeakC = "static"
+CONSTANTS MaxNow = 80  MaxLen = 9  MaxEdits = 2  Dedupe = 10  VD = 15  WeakC = "static"
 SPECIFICATION Spec
 VIEW view
 INVARIANTS Inv_C07_ConsolidatableJustified
